@@ -123,6 +123,15 @@ func New(opts *Options) (*NSQD, error) {
 		opts.MsgTimeout = opts.MaxMsgTimeout
 	}
 
+	// every client's messagePump starts a ticker from each of these two durations
+	// (time.NewTicker panics on a non-positive interval, in a goroutine nothing recovers)
+	if opts.OutputBufferTimeout <= 0 {
+		return nil, errors.New("--output-buffer-timeout must be greater than 0")
+	}
+	if opts.ClientTimeout/2 <= 0 {
+		return nil, errors.New("--client-timeout must be at least 2ns")
+	}
+
 	if opts.TLSClientAuthPolicy != "" && opts.TLSRequired == TLSNotRequired {
 		opts.TLSRequired = TLSRequired
 	}
